@@ -649,9 +649,17 @@ def main():
         for v in violations:
             print(v)
         sys.exit(1)
-    print("OK property=%s tier=%s theorems=%d/%d scenarios=%d agree=%d wall=%.1fs" % (
+    nb = len(props.BRIDGES.get(prop, []))
+    nskip = len(pinfo.get("bridges_skipped", {})) + len(pinfo.get("bridges_not_reproved", {}))
+    print("OK property=%s tier=%s theorems=%d/%d scenarios=%d agree=%d wall=%.1fs%s" % (
         prop, tier, len(pinfo["discharged"]), len(pinfo["obligations"]), len(lines),
-        sum(1 for r in results if r["eq"]), time.time() - t0))
+        sum(1 for r in results if r["eq"]), time.time() - t0,
+        (" bridges=%d/%d" % (nb - nskip, nb)) if nb else ""))
+    if nskip:
+        # not an alarm: these functions of /repo are outside what the translator (or a shape-bound proof) covers on this
+        # tree, so their tie to the model is the scenario comparison alone on this run
+        print("NOTE property=%s translated-code obligations not available on this tree (tie by correspondence only): %s" % (
+            prop, ", ".join(sorted(list(pinfo.get("bridges_skipped", {})) + list(pinfo.get("bridges_not_reproved", {})))))) 
     sys.exit(0)
 
 
